@@ -49,12 +49,20 @@ type chSys struct {
 	kind   string
 	h      *ConsistentHash
 	model  map[string]int // node name -> replicas (present nodes, possibly 0)
+	base   int            // the ring's replica count per full-weight node
 	keys   []any
 	assign []string // current assignment ("" = absent)
 }
 
-func newChSys(r *vrt.Run, kind string, keys []any) *chSys {
-	s := &chSys{r: r, kind: kind, h: NewConsistentHash(), model: map[string]int{}, keys: keys}
+func newChSys(r *vrt.Run, kind string, keys []any) *chSys { return newChSysReplicas(r, kind, keys, 100) }
+
+func newChSysReplicas(r *vrt.Run, kind string, keys []any, base int) *chSys {
+	s := &chSys{r: r, kind: kind, model: map[string]int{}, keys: keys, base: base}
+	if base == 100 {
+		s.h = NewConsistentHash()
+	} else {
+		s.h = NewCustomConsistentHash(base, nil)
+	}
 	s.assign = s.lookupAll("init")
 	return s
 }
@@ -137,14 +145,14 @@ func (s *chSys) apply(op string) bool {
 	switch f[0] {
 	case "add":
 		s.h.Add(node)
-		s.model[name] = 100
+		s.model[name] = s.base
 	case "addw":
 		s.h.AddWithWeight(node, arg)
-		s.model[name] = 100 * arg / 100
+		s.model[name] = s.base * arg / 100
 	case "addr":
 		s.h.AddWithReplicas(node, arg)
-		if arg > 100 {
-			arg = 100
+		if arg > s.base {
+			arg = s.base
 		}
 		s.model[name] = arg
 	case "rm":
@@ -226,7 +234,7 @@ func (s *chSys) apply(op string) bool {
 	}
 	// differential: re-adding a present node == removing it and adding it
 	if wasPresent && f[0] != "rm" {
-		alt := NewConsistentHash()
+		alt := NewCustomConsistentHash(s.base, nil)
 		for n, r := range s.model {
 			alt.AddWithReplicas(chNode(s.kind, n), r)
 		}
@@ -261,7 +269,7 @@ func (s *chSys) canon() string {
 func TestVerifConsistentHash(t *testing.T) {
 	defer vrt.WriteReport()
 	nodes := []string{"A", "B", "C"}
-	nkeys, depth := 2000, 4
+	nkeys, depth := 1000, 4
 	if vrt.Thorough() {
 		nodes = []string{"A", "B", "C", "D"}
 		nkeys, depth = 20000, 6
@@ -278,13 +286,25 @@ func TestVerifConsistentHash(t *testing.T) {
 		}
 		ops = append(ops, "rm:"+n)
 	}
-	for i, kind := range []string{"string", "struct", "stringer"} {
+	type cfg struct {
+		kind string
+		base int
+	}
+	for i, c := range []cfg{{"string", 100}, {"struct", 100}, {"stringer", 100}, {"string", 150}, {"string", 199}, {"string", 333}} {
 		if !vrt.Shard(i) {
 			continue
 		}
-		kind := kind
-		vrt.BFS(vrt.Options{Name: "consistenthash/nodes=" + kind, Horizon: 1 << 30, Budget: vrt.FairBudget(1)}, depth, ops, func(r *vrt.Run, hist []string) vrt.Step {
-			s := newChSys(r, kind, keys)
+		c := c
+		d := depth
+		if c.base != 100 {
+			d = depth - 1 // custom replica counts: one step shallower
+		}
+		vrt.BFS(vrt.Options{Name: fmt.Sprintf("consistenthash/nodes=%s/replicas=%d", c.kind, c.base), Horizon: 1 << 30, Budget: vrt.FairBudget(1)}, d, ops, func(r *vrt.Run, hist []string) vrt.Step {
+			ks := keys
+			if c.base != 100 {
+				ks = keys[:len(keys)/5] // fewer probe keys for the custom rings (structure checks are exact anyway)
+			}
+			s := newChSysReplicas(r, c.kind, ks, c.base)
 			for _, op := range hist {
 				if !s.apply(op) {
 					return vrt.Step{}
